@@ -247,7 +247,7 @@ fn burn(cfg: &Cfg, grp: &str, case: u64, rng: &mut Rng, rep: &mut Report) {
 pub fn run(cfg: &Cfg, rep: &mut Report) -> PropMeta {
     run_cases(cfg, "programs", cfg.n(6000, 100000) as u64, rep, |i, rng, rep| programs(cfg, "programs", i, rng, rep, &[2, 4, 8, 16, 32]));
     run_cases(cfg, "programs_mid", cfg.n(60, 1500) as u64, rep, |i, rng, rep| programs(cfg, "programs_mid", i, rng, rep, &[64, 128, 256]));
-    if !cfg.quick() { run_cases(cfg, "programs_1024", cfg.n(1, 40) as u64, rep, |i, rng, rep| programs(cfg, "programs_1024", i, rng, rep, &[512, 1024])); }
+    run_cases(cfg, "programs_1024", cfg.pick(2, 40), rep, |i, rng, rep| programs(cfg, "programs_1024", i, rng, rep, &[512, 1024]));
     run_cases(cfg, "burn", cfg.n(3000, 60000) as u64, rep, |i, rng, rep| burn(cfg, "burn", i, rng, rep));
     run_cases(cfg, "fresh_large_t", cfg.n(1500, 30000) as u64, rep, |i, rng, rep| fresh_large_t(cfg, "fresh_large_t", i, rng, rep));
     run_cases(cfg, "sums", cfg.n(1500, 30000) as u64, rep, |i, rng, rep| sums(cfg, "sums", i, rng, rep));
